@@ -56,6 +56,8 @@ func checkC01(r *Report, p *Program) {
 	lastAppliedIsHookAnswer(r, p, "R01.8")
 	jsonDecodingPreservesInts(r, p, "R01.9")
 	everyCandidateTried(r, p, "R01.10")
+	createTable(r, p, "R01.11")
+	r02_1(r, p, computeChildRoles(p)) // a delete/update addressed to another namespace or name than the observed child's never converges
 }
 
 func r01_children(r *Report, p *Program) {
